@@ -1,43 +1,315 @@
+// Temporary experiment: run real esbuild over the corpus and check jsref on the outputs.
 package main
 
 import (
+	"encoding/json"
 	"fmt"
+	"go/ast"
+	goparser "go/parser"
+	"go/token"
 	"os"
+	"os/exec"
+	"path/filepath"
+	"sort"
+	"strconv"
+	"strings"
 
+	"github.com/evanw/esbuild/pkg/api"
 	"github.com/evanw/esbuild/verif/jsref"
 )
 
-func main() {
-	mod := false
-	jsx := false
-	args := os.Args[1:]
-	for len(args) > 0 && (args[0] == "-m" || args[0] == "-x") {
-		if args[0] == "-m" {
-			mod = true
-		} else {
-			jsx = true
+type output struct {
+	Code string
+	Mode string
+	JSX  bool
+}
+
+func goConstString(e ast.Expr) (string, bool) {
+	switch e := e.(type) {
+	case *ast.BasicLit:
+		if e.Kind == token.STRING {
+			s, err := strconv.Unquote(e.Value)
+			return s, err == nil
 		}
-		args = args[1:]
+	case *ast.BinaryExpr:
+		if e.Op == token.ADD {
+			a, ok1 := goConstString(e.X)
+			b, ok2 := goConstString(e.Y)
+			return a + b, ok1 && ok2
+		}
 	}
-	for _, src := range args {
-		p, err := jsref.Parse(src, jsref.Options{Module: mod, JSX: jsx})
+	return "", false
+}
+
+type project struct {
+	files   map[string]string
+	entries []string
+}
+
+func harvestProjects() []project {
+	var out []project
+	files, _ := filepath.Glob("/repo/internal/bundler_tests/*_test.go")
+	for _, f := range files {
+		fset := token.NewFileSet()
+		af, err := goparser.ParseFile(fset, f, nil, 0)
 		if err != nil {
-			fmt.Printf("ERR %q: %v\n", src, err)
 			continue
 		}
-		fmt.Printf("OK %q\n  toks:", src)
-		for _, t := range p.Tokens {
-			fmt.Printf(" %s", t.Raw)
-			if t.Kind == jsref.TRegex {
-				fmt.Printf("«re»")
+		ast.Inspect(af, func(n ast.Node) bool {
+			cl, ok := n.(*ast.CompositeLit)
+			if !ok {
+				return true
+			}
+			var pr project
+			for _, el := range cl.Elts {
+				kv, ok := el.(*ast.KeyValueExpr)
+				if !ok {
+					continue
+				}
+				k, ok := kv.Key.(*ast.Ident)
+				if !ok {
+					continue
+				}
+				v, ok := kv.Value.(*ast.CompositeLit)
+				if !ok {
+					continue
+				}
+				switch k.Name {
+				case "files":
+					pr.files = map[string]string{}
+					for _, fe := range v.Elts {
+						if fkv, ok := fe.(*ast.KeyValueExpr); ok {
+							a, ok1 := goConstString(fkv.Key)
+							b, ok2 := goConstString(fkv.Value)
+							if ok1 && ok2 {
+								pr.files[a] = b
+							}
+						}
+					}
+				case "entryPaths":
+					for _, fe := range v.Elts {
+						if s, ok := goConstString(fe); ok {
+							pr.entries = append(pr.entries, s)
+						}
+					}
+				}
+			}
+			if len(pr.files) > 0 && len(pr.entries) > 0 {
+				out = append(out, pr)
+			}
+			return true
+		})
+	}
+	return out
+}
+
+func main() {
+	var corpus []string
+	b, err := os.ReadFile("/tmp/jsref_corpus.json")
+	if err != nil {
+		panic(err)
+	}
+	json.Unmarshal(b, &corpus)
+
+	seen := map[string]bool{}
+	var outs []output
+	add := func(code, mode string, jsx bool) {
+		key := code
+		if jsx {
+			key = "jsx:" + code
+		}
+		if code == "" || seen[key] {
+			return
+		}
+		seen[key] = true
+		outs = append(outs, output{code, mode, jsx})
+	}
+	type mode struct {
+		name string
+		opts api.TransformOptions
+	}
+	modes := []mode{
+		{"default", api.TransformOptions{}},
+		{"minify", api.TransformOptions{MinifyWhitespace: true, MinifyIdentifiers: true, MinifySyntax: true}},
+		{"minify-ascii", api.TransformOptions{MinifyWhitespace: true, MinifyIdentifiers: true, MinifySyntax: true, Charset: api.CharsetASCII}},
+		{"ws-utf8", api.TransformOptions{MinifyWhitespace: true, Charset: api.CharsetUTF8}},
+		{"cjs", api.TransformOptions{Format: api.FormatCommonJS}},
+		{"iife-min", api.TransformOptions{Format: api.FormatIIFE, GlobalName: "g", MinifyWhitespace: true, MinifySyntax: true}},
+		{"esm-es2015", api.TransformOptions{Format: api.FormatESModule, Target: api.ES2015}},
+		{"es2017-min", api.TransformOptions{Target: api.ES2017, MinifyWhitespace: true}},
+		{"es2020", api.TransformOptions{Target: api.ES2020}},
+	}
+	for _, src := range corpus {
+		for _, m := range modes {
+			o := m.opts
+			o.LogLevel = api.LogLevelSilent
+			r := api.Transform(src, o)
+			if len(r.Errors) == 0 {
+				add(string(r.Code), m.name, false)
 			}
 		}
-		fmt.Printf("\n  free=%v feats=%v\n", p.FreeNames, p.Features)
-		for _, i := range p.Imports {
-			fmt.Printf("  import %+v\n", i)
-		}
-		for _, e := range p.Exports {
-			fmt.Printf("  export %+v\n", e)
+		if strings.Contains(src, "<") {
+			for _, min := range []bool{false, true} {
+				r := api.Transform(src, api.TransformOptions{Loader: api.LoaderJSX, JSX: api.JSXPreserve, MinifyWhitespace: min, LogLevel: api.LogLevelSilent})
+				if len(r.Errors) == 0 && strings.Contains(string(r.Code), "<") {
+					add(string(r.Code), "jsx-preserve", true)
+				}
+			}
 		}
 	}
+	fmt.Println("transform outputs:", len(outs))
+
+	// bundles
+	projects := harvestProjects()
+	fmt.Println("projects:", len(projects))
+	tmp, _ := os.MkdirTemp("", "jsrefproj")
+	defer os.RemoveAll(tmp)
+	for i, pr := range projects {
+		dir := filepath.Join(tmp, strconv.Itoa(i))
+		for name, content := range pr.files {
+			p := filepath.Join(dir, name)
+			os.MkdirAll(filepath.Dir(p), 0o755)
+			os.WriteFile(p, []byte(content), 0o644)
+		}
+		var entries []string
+		for _, e := range pr.entries {
+			entries = append(entries, filepath.Join(dir, e))
+		}
+		for _, f := range []api.Format{api.FormatESModule, api.FormatCommonJS, api.FormatIIFE} {
+			for _, min := range []bool{false, true} {
+				r := api.Build(api.BuildOptions{EntryPoints: entries, Bundle: true, Format: f, Outdir: filepath.Join(dir, "out"),
+					MinifyWhitespace: min, MinifyIdentifiers: min, MinifySyntax: min, LogLevel: api.LogLevelSilent,
+					AbsWorkingDir: dir, Charset: map[bool]api.Charset{false: api.CharsetUTF8, true: api.CharsetASCII}[min]})
+				if len(r.Errors) > 0 {
+					continue
+				}
+				for _, of := range r.OutputFiles {
+					if strings.HasSuffix(of.Path, ".js") {
+						add(string(of.Contents), fmt.Sprintf("bundle-%v-min%v", f, min), false)
+					}
+				}
+			}
+		}
+	}
+	fmt.Println("total outputs:", len(outs))
+
+	// V8 verdicts
+	var codes []string
+	for _, o := range outs {
+		codes = append(codes, o.Code)
+	}
+	jb, _ := json.Marshal(codes)
+	os.WriteFile(filepath.Join(tmp, "in.json"), jb, 0o644)
+	verd := make([][2]bool, len(outs))
+	for _, node := range []string{"/usr/bin/node", "/root/.nvm/versions/node/v22.22.2/bin/node"} {
+		outFile := filepath.Join(tmp, "out.json")
+		cmd := exec.Command(node, "--experimental-vm-modules", "--no-warnings", "/verif/harness/jsref/testdata/check.js", filepath.Join(tmp, "in.json"), outFile)
+		if b, err := cmd.CombinedOutput(); err != nil {
+			panic(string(b))
+		}
+		ob, _ := os.ReadFile(outFile)
+		var v [][2]bool
+		json.Unmarshal(ob, &v)
+		for i := range v {
+			verd[i][0] = verd[i][0] || v[i][0]
+			verd[i][1] = verd[i][1] || v[i][1]
+		}
+	}
+	pairs, fails, jsxN, jsxFail, v8rejects := 0, 0, 0, 0, 0
+	type cand struct {
+		idx    int
+		module bool
+		feats  map[jsref.Feature]int
+	}
+	var cands []cand
+	for i, o := range outs {
+		if o.JSX {
+			jsxN++
+			p, err := jsref.Parse(o.Code, jsref.Options{Module: true, JSX: true})
+			if err != nil {
+				jsxFail++
+				if jsxFail < 15 {
+					fmt.Printf("JSX FAIL %v\n%s\n----\n", err, o.Code)
+				}
+			} else {
+				cands = append(cands, cand{i, true, p.Features})
+			}
+			continue
+		}
+		if !verd[i][0] && !verd[i][1] {
+			v8rejects++
+		}
+		for g := 0; g < 2; g++ {
+			if !verd[i][g] {
+				continue
+			}
+			pairs++
+			p, err := jsref.Parse(o.Code, jsref.Options{Module: g == 1})
+			if err != nil {
+				fails++
+				if fails < 30 {
+					c := o.Code
+					if len(c) > 600 {
+						c = c[:600]
+					}
+					fmt.Printf("FAIL mode=%s module=%v: %v\n%s\n----\n", o.Mode, g == 1, err, c)
+				}
+			} else if g == 1 || !verd[i][1] {
+				cands = append(cands, cand{i, g == 1, p.Features})
+			}
+		}
+	}
+	fmt.Printf("outputs=%d v8-accepted pairs=%d jsref failures=%d; v8 rejects both goals=%d; jsx outputs=%d jsx failures=%d\n", len(outs), pairs, fails, v8rejects, jsxN, jsxFail)
+
+	// choose ~220 outputs greedily by new (feature, mode) coverage, then the largest bundles
+	covered := map[string]bool{}
+	var chosen []cand
+	sort.SliceStable(cands, func(a, b int) bool { return len(cands[a].feats) > len(cands[b].feats) })
+	for _, c := range cands {
+		if len(chosen) >= 170 {
+			break
+		}
+		isNew := false
+		for f := range c.feats {
+			k := string(f) + "|" + outs[c.idx].Mode
+			if !covered[k] {
+				isNew = true
+				covered[k] = true
+			}
+		}
+		if isNew && len(outs[c.idx].Code) < 20000 {
+			chosen = append(chosen, c)
+		}
+	}
+	picked := map[int]bool{}
+	for _, c := range chosen {
+		picked[c.idx] = true
+	}
+	sort.SliceStable(cands, func(a, b int) bool { return len(outs[cands[a].idx].Code) > len(outs[cands[b].idx].Code) })
+	n := 0
+	for _, c := range cands {
+		if n >= 50 {
+			break
+		}
+		if strings.HasPrefix(outs[c.idx].Mode, "bundle") && !picked[c.idx] && len(outs[c.idx].Code) < 30000 {
+			chosen = append(chosen, c)
+			picked[c.idx] = true
+			n++
+		}
+	}
+	os.RemoveAll("/verif/harness/jsref/testdata/esbuild")
+	os.MkdirAll("/verif/harness/jsref/testdata/esbuild", 0o755)
+	for i, c := range chosen {
+		o := outs[c.idx]
+		goal := "script"
+		if c.module {
+			goal = "module"
+		}
+		if o.JSX {
+			goal = "jsx"
+		}
+		name := fmt.Sprintf("%03d_%s.%s.js", i, strings.NewReplacer("=", "", " ", "").Replace(o.Mode), goal)
+		os.WriteFile(filepath.Join("/verif/harness/jsref/testdata/esbuild", name), []byte(o.Code), 0o644)
+	}
+	fmt.Println("saved", len(chosen), "files")
 }
